@@ -331,4 +331,179 @@ example : Sll.sampleEth.WF := by decide
 
 end Sll
 
+/-! ## TCP -/
+namespace Tcp
+open EpModel.Codec.Tcp
+
+theorem fixed_length (h : Tcp) : (fixed h).length = 20 := by simp [fixed]
+
+theorem toBytes_eq (h : Tcp) : toBytes h = fixed h ++ h.opts.buf.take h.opts.len := by
+  unfold toBytes headerLen
+  rw [List.take_append, fixed_length, List.take_of_length_le (by rw [fixed_length]; omega)]
+  congr 2; omega
+
+theorem toBytes_length (h : Tcp) (hw : h.WF) : (toBytes h).length = 20 + h.opts.len := by
+  obtain ⟨_, _, _, _, _, _, _, ho1, _, ho3, _⟩ := hw
+  rw [toBytes_eq h]
+  simp [fixed_length, ho3]; omega
+
+theorem encoders_agree (h : Tcp) (hw : h.WF) :
+    toBytes h = writeOut h ∧ (toBytes h).length = headerLen h := by
+  refine ⟨?_, toBytes_length h hw⟩
+  rw [toBytes_eq h]
+  unfold writeOut TcpOpts.asSlice
+  split
+  · rename_i he
+    simp only [List.isEmpty_iff] at he
+    rw [he]
+  · rfl
+
+theorem toHeader_toBytes (h : Tcp) (tail : Bytes) (hw : h.WF) : toHeader (toBytes h ++ tail) = h := by
+  have hfl := fixed_length h
+  have heq := toBytes_eq h
+  obtain ⟨h1, h2, h3, h4, h5, h6, h7, ho1, ho2, ho3, ho4⟩ := hw
+  have hb12 := tcp_b12_fwd h.opts.len (by omega) ho2 h.ns
+  have hb13 := tcp_b13_fwd h.fin h.syn h.rst h.psh h.ackf h.urg h.ece h.cwr
+  have e12 : bAt (toBytes h ++ tail) 12 = (byte12 h) % 256 := by
+    rw [heq]; simp [fixed]
+  have e13 : bAt (toBytes h ++ tail) 13 = (byte13 h) % 256 := by
+    rw [heq]; simp [fixed]
+  have f2 : (byte12 h % 256 &&& 240) >>> 4 = 5 + h.opts.len / 4 := hb12.2.1
+  have f3 : decide (byte12 h % 256 &&& 1 ≠ 0) = h.ns := hb12.2.2
+  have g1 : decide (byte13 h % 256 &&& 1 ≠ 0) = h.fin := hb13.1
+  have g2 : decide (byte13 h % 256 &&& 2 ≠ 0) = h.syn := hb13.2.1
+  have g3 : decide (byte13 h % 256 &&& 4 ≠ 0) = h.rst := hb13.2.2.1
+  have g4 : decide (byte13 h % 256 &&& 8 ≠ 0) = h.psh := hb13.2.2.2.1
+  have g5 : decide (byte13 h % 256 &&& 16 ≠ 0) = h.ackf := hb13.2.2.2.2.1
+  have g6 : decide (byte13 h % 256 &&& 32 ≠ 0) = h.urg := hb13.2.2.2.2.2.1
+  have g7 : decide (byte13 h % 256 &&& 64 ≠ 0) = h.ece := hb13.2.2.2.2.2.2.1
+  have g8 : decide (byte13 h % 256 &&& 128 ≠ 0) = h.cwr := hb13.2.2.2.2.2.2.2
+  have e1 : (5 + h.opts.len / 4) * 4 - 20 = h.opts.len := by omega
+  have htake : (h.opts.buf.take h.opts.len).length = h.opts.len := by simp [ho3]; omega
+  have eo : sub (toBytes h ++ tail) 20 h.opts.len = h.opts.buf.take h.opts.len := by
+    rw [heq, List.append_assoc, sub_append_right _ _ _ _ (by omega), hfl]
+    simp only [Nat.sub_self]
+    exact sub_append_exact _ _ _ htake
+  have ebuf : h.opts.buf.take h.opts.len ++ zeros (40 - h.opts.len) = h.opts.buf := by
+    rw [← ho4, List.take_append_drop]
+  unfold toHeader
+  simp only [e12, e13, f2, f3, g1, g2, g3, g4, g5, g6, g7, g8, e1, eo, htake, ebuf,
+    Nat.mod_eq_of_lt (show h.opts.len < 256 by omega)]
+  rw [heq]
+  obtain ⟨sp, dp, seq, ack, ns, fin, syn, rst, psh, ackf, urg, ece, cwr, win, ck, urgp, opts⟩ := h
+  simp only at h1 h2 h3 h4 h5 h6 h7
+  simp [fixed, be16_enc16, be32_enc32, h1, h2, h3, h4, h5, h6, h7]
+
+theorem decode_encode (h : Tcp) (tail : Bytes) (hw : h.WF) :
+    fromSlice (toBytes h ++ tail) = .ok (h, tail) := by
+  have hl := toBytes_length h hw
+  have hth := toHeader_toBytes h tail hw
+  obtain ⟨_, _, _, _, _, _, _, ho1, ho2, _, _⟩ := hw
+  have hb12 := tcp_b12_fwd h.opts.len (by omega) ho2 h.ns
+  have e12 : bAt (toBytes h ++ tail) 12 = (byte12 h) % 256 := by
+    rw [toBytes_eq h]; simp [fixed]
+  have f1 : (byte12 h % 256 &&& 240) >>> 2 = 20 + h.opts.len := hb12.1
+  unfold fromSlice
+  rw [if_neg (by rw [List.length_append, hl]; omega)]
+  simp only [e12, f1]
+  rw [if_neg (by omega), if_neg (by rw [List.length_append, hl]; omega), hth,
+    drop_append_exact _ _ _ hl]
+
+/-- the three reserved bits of byte 12 (between data offset and the ns flag) are dropped by the
+    decoder and written as zero. -/
+def maskReserved (b : Bytes) : Bytes := mapAt b 12 (· &&& 0xF1)
+
+/-- what an accepting `fromSlice` tells about the input. -/
+theorem fromSlice_ok (b rest : Bytes) (h : Tcp) (hd : fromSlice b = .ok (h, rest)) :
+    20 ≤ b.length ∧ 20 ≤ (bAt b 12 &&& 0xf0) >>> 2 ∧ (bAt b 12 &&& 0xf0) >>> 2 ≤ b.length ∧
+      h = toHeader b ∧ rest = b.drop ((bAt b 12 &&& 0xf0) >>> 2) := by
+  unfold fromSlice at hd
+  split at hd
+  · cases hd
+  · simp only at hd
+    split at hd
+    · cases hd
+    · split at hd
+      · cases hd
+      · cases hd
+        exact ⟨by omega, by omega, by omega, rfl, rfl⟩
+
+theorem decode_wf (b rest : Bytes) (h : Tcp) (hd : fromSlice b = .ok (h, rest)) :
+    h.WF ∧ rest = b.drop (headerLen h) ∧ headerLen h ≤ b.length := by
+  obtain ⟨hb20, hl20, hlb, hh, hr⟩ := fromSlice_ok b rest h hd
+  have hx := tcp_b12_bwd (bAt b 12) (bAt_lt _ _) hl20
+  obtain ⟨-, hx2, hx3⟩ := hx
+  have hol : (sub b 20 (((bAt b 12 &&& 0b1111_0000) >>> 4) * 4 - 20)).length =
+      ((bAt b 12 &&& 0b1111_0000) >>> 4) * 4 - 20 := sub_length _ _ _ (by omega)
+  have hlen : h.opts.len = (bAt b 12 &&& 0xf0) >>> 2 - 20 := by
+    rw [hh]; simp only [toHeader]; rw [hol]; omega
+  have hhl : headerLen h = (bAt b 12 &&& 0xf0) >>> 2 := by unfold headerLen; omega
+  refine ⟨?_, by rw [hhl]; exact hr, by rw [hhl]; exact hlb⟩
+  rw [hh]
+  refine ⟨be16_lt _ _, be16_lt _ _, be32_lt _ _, be32_lt _ _, be16_lt _ _, be16_lt _ _, be16_lt _ _, ?_⟩
+  simp only [toHeader, TcpOpts.WF]
+  rw [hol]
+  refine ⟨by omega, by omega, ?_, ?_⟩
+  · simp [hol, zeros]; omega
+  · rw [Nat.mod_eq_of_lt (by omega), drop_append_exact _ _ _ hol]
+
+theorem encode_decode_bytes (b rest : Bytes) (h : Tcp) (hd : fromSlice b = .ok (h, rest)) :
+    toBytes h = maskReserved (b.take (headerLen h)) := by
+  obtain ⟨hb20, hl20, hlb, hh, hr⟩ := fromSlice_ok b rest h hd
+  have hx := tcp_b12_bwd (bAt b 12) (bAt_lt _ _) hl20
+  obtain ⟨hx1, hx2, hx3⟩ := hx
+  have hy := tcp_b13_bwd (bAt b 13) (bAt_lt _ _)
+  have hol : (sub b 20 (((bAt b 12 &&& 0b1111_0000) >>> 4) * 4 - 20)).length =
+      ((bAt b 12 &&& 0b1111_0000) >>> 4) * 4 - 20 := sub_length _ _ _ (by omega)
+  have hlen : h.opts.len = (bAt b 12 &&& 0xf0) >>> 2 - 20 := by
+    rw [hh]; simp only [toHeader]; rw [hol]; omega
+  have hhl : headerLen h = (bAt b 12 &&& 0xf0) >>> 2 := by unfold headerLen; omega
+  generalize hHL : (bAt b 12 &&& 0xf0) >>> 2 = HL at *
+  -- right hand side
+  have hrhs : maskReserved (b.take HL) =
+      sub b 0 12 ++ [u8 (bAt b 12 &&& 0xF1)] ++ sub b 13 (HL - 13) := by
+    unfold maskReserved mapAt
+    have e1 : (b.take HL).take 12 = sub b 0 12 := by
+      rw [List.take_take, sub_zero]; congr 1; omega
+    have e2 : (b.take HL).drop 12 = b[12]'(by omega) :: sub b 13 (HL - 13) := by
+      rw [List.drop_take, List.drop_eq_getElem_cons (by omega : 12 < b.length)]
+      have : HL - 12 = (HL - 13) + 1 := by omega
+      rw [this, List.take_succ_cons]; rfl
+    rw [e1, e2]
+    simp only [List.append_assoc, List.cons_append, List.nil_append]
+    congr 3
+    simp [bAt, List.getD, List.getElem?_eq_getElem (by omega : 12 < b.length)]
+  have hD : ((bAt b 12 &&& 0b1111_0000) >>> 4) * 4 - 20 = HL - 20 := by omega
+  have k12 : byte12 h % 256 = bAt b 12 &&& 0xF1 := by
+    rw [hh]; simp only [byte12, toHeader, TcpOpts.dataOffset, hol]; exact hx1
+  have k13 : byte13 h = bAt b 13 := by rw [hh]; exact hy
+  have hand : (bAt b 12 &&& 0xF1) % 256 = bAt b 12 &&& 0xF1 :=
+    Nat.mod_eq_of_lt (by have := @Nat.and_le_right (bAt b 12) 0xF1; omega)
+  have eopts : h.opts.buf.take h.opts.len = sub b 20 (HL - 20) := by
+    rw [hh]; simp only [toHeader]
+    rw [hol, hD, Nat.mod_eq_of_lt (by omega), ← sub_zero, sub_append_exact _ _ _ (by rw [← hD]; exact hol)]
+  rw [hhl, hrhs, toBytes_eq h, eopts]
+  unfold fixed
+  rw [u8_congr h.byte12 (bAt b 12 &&& 0xF1) (by rw [k12, hand]), k13, hh]
+  simp only [toHeader]
+  rw [enc16_be16 b 0 (by omega), enc16_be16 b 2 (by omega), enc32_be32 b 4 (by omega),
+    enc32_be32 b 8 (by omega), enc16_be16 b 14 (by omega), enc16_be16 b 16 (by omega),
+    enc16_be16 b 18 (by omega), sub_glue b 0 2 2 2 4 rfl rfl, sub_glue b 0 4 4 4 8 rfl rfl,
+    sub_glue b 0 8 8 4 12 rfl rfl]
+  show sub b 0 12 ++ ([u8 (bAt b 12 &&& 0xF1)] ++ [u8 (bAt b 13)]) ++ sub b 14 2 ++ sub b 16 2 ++ sub b 18 2 ++
+    sub b 20 (HL - 20) = _
+  rw [sub_one b 13 (by omega)]
+  simp only [List.append_assoc]
+  rw [sub_glue b 18 2 20 (HL - 20) (HL - 18) rfl (by omega), sub_glue b 16 2 18 (HL - 18) (HL - 16) rfl (by omega),
+    sub_glue b 14 2 16 (HL - 16) (HL - 14) rfl (by omega), sub_glue b 13 1 14 (HL - 14) (HL - 13) rfl (by omega)]
+
+
+theorem encode_decode (b rest : Bytes) (h : Tcp) (hd : fromSlice b = .ok (h, rest)) :
+    toBytes h = maskReserved (b.take (headerLen h)) ∧ fromSlice (toBytes h ++ rest) = .ok (h, rest) :=
+  ⟨encode_decode_bytes b rest h hd, decode_encode h rest (decode_wf b rest h hd).1⟩
+
+example : Tcp.sampleMax.WF := by decide
+
+end Tcp
+
 end EpModel.Props.C08Link
